@@ -223,6 +223,12 @@ def harness_for(cfg):
             E.prove(False, "a frozen builder accepted a register")
         except ValueError:
             pass
+        # ... and the memory map it returned is final as well
+        try:
+            mm.add_resource(Reg(8), name=("sneaked-in",), size=1)
+            E.prove(False, "the memory map returned by as_memory_map() still accepts resources")
+        except ValueError:
+            pass
         got = {id(r): (n, s, e) for r, n, (s, e) in mm.resources()}
         E.prove(len(got) == len(regs), "every added register is in the memory map exactly once")
         prev_end = 0
